@@ -32,6 +32,28 @@ Proof.
   rewrite rata_fast_ok by lia. split; [apply rata_fast_nonneg; lia|apply rata_fast_upper; lia].
 Qed.
 
+(* the last day number: 9999-12-31 *)
+Lemma rata_tight y m d : real_date y m d = true -> rata_die y m d <= 3652058.
+Proof.
+  intros H. destruct (real_date_inv _ _ _ H) as [Hy [Hv [Hm Hd]]].
+  rewrite rata_fast_ok by lia.
+  assert (Hdim : d <= dim y m) by (unfold valid_date in Hv; lia).
+  unfold rata_fast, dby_closed, dbm_table. unfold dim in Hdim.
+  destruct (is_leap y) eqn:L.
+  - assert (y <= 9996) by (unfold is_leap in L; lia).
+    repeat match goal with
+           | H : context [if ?c then _ else _] |- _ => destruct c eqn:?
+           | |- context [if ?c then _ else _] => destruct c eqn:?
+           end; lia.
+  - repeat match goal with
+           | H : context [if ?c then _ else _] |- _ => destruct c eqn:?
+           | |- context [if ?c then _ else _] => destruct c eqn:?
+           end; lia.
+Qed.
+
+Lemma day_number_real y m d : real_date y m d = true -> day_number_ok (rata_die y m d + 1) = true.
+Proof. intros H. pose proof (rata_bounds _ _ _ H). pose proof (rata_tight _ _ _ H). unfold day_number_ok. lia. Qed.
+
 Lemma dow_safe y m d : 1 <= y <= 9999 -> 1 <= m <= 12 -> 1 <= d <= 31 -> CalFunc.day_of_week_safe y m d = true.
 Proof.
   intros Hy Hm Hd. unfold CalFunc.day_of_week_safe, rdiv, rrem. cbv zeta.
@@ -105,10 +127,10 @@ Proof.
   rewrite S, E. cbv zeta.
   replace (rata_die y m d + 1 + (rata_die y' m' d' - rata_die y m d)) with (CalFunc.date_to_days y' m' d') by lia.
   replace (rata_die y m d + 1 - (rata_die y m d - rata_die y' m' d')) with (CalFunc.date_to_days y' m' d') by lia.
-  rewrite IS, I. pose proof (rata_bounds _ _ _ H').
+  pose proof (rata_bounds _ _ _ H'). pose proof (day_number_real _ _ _ H') as DN. rewrite <- E' in DN.
   replace (in_i64 (CalFunc.date_to_days y' m' d')) with true
     by (symmetry; apply in_i64_true; unfold i64_min, i64_max; lia).
-  split; reflexivity.
+  rewrite DN. cbn [andb]. rewrite IS, I. split; reflexivity.
 Qed.
 
 (* FROM_DAYS inverts TO_DAYS *)
@@ -117,18 +139,36 @@ Theorem from_days_to_days_l : forall y m d, real_date y m d = true ->
 Proof.
   intros y m d H. destruct (real_date_inv _ _ _ H) as [Hy [Hv _]].
   cbn [eval_dfn]. destruct (func_days_correct_l y m d Hy Hv) as [E S]. rewrite <- E.
-  destruct (days_to_date_inverse_l y m d Hy Hv) as [I IS]. unfold guard. rewrite IS, I. reflexivity.
+  destruct (days_to_date_inverse_l y m d Hy Hv) as [I IS]. unfold guard.
+  pose proof (day_number_real _ _ _ H) as DN. rewrite <- E in DN. rewrite DN, IS, I. reflexivity.
 Qed.
 
 (* NULL in, NULL out *)
 Theorem date_null_l : forall f rest, to_sql (eval_dfn f (DNullA :: rest)) = OVal VNull.
 Proof. intros f rest. destruct f; reflexivity. Qed.
 
-(* unchecked day arithmetic: huge day counts panic *)
-Theorem date_refuted_l :
-  eval_dfn DDateAdd [DDate 2024 1 1; DNum i64_max] = OPanic /\ dfn_class DDateAdd [DDate 2024 1 1; DNum i64_max] = 8 /\
-  eval_dfn DFromDays [DNum i64_max] = OPanic /\ dfn_class DFromDays [DNum i64_max] = 8 /\
-  eval_dfn DDateSub [DDate 2024 1 1; DNum 92233720368547758] = OPanic.
+(* results outside 0001-01-01 .. 9999-12-31 are NULL, whatever the day count: no panic *)
+Theorem date_out_of_range_null_l : forall y m d k n, fields_ok y m d = true ->
+  (in_i64 (CalFunc.date_to_days y m d + k) && day_number_ok (CalFunc.date_to_days y m d + k) = false ->
+     eval_dfn DDateAdd [DDate y m d; DNum k] = OVal VNull) /\
+  (in_i64 (CalFunc.date_to_days y m d - k) && day_number_ok (CalFunc.date_to_days y m d - k) = false ->
+     eval_dfn DDateSub [DDate y m d; DNum k] = OVal VNull) /\
+  (day_number_ok n = false -> eval_dfn DFromDays [DNum n] = OVal VNull).
+Proof.
+  intros y m d k n F. cbn [eval_dfn]. rewrite F. cbn [negb]. unfold guard.
+  assert (S : CalFunc.date_to_days_safe y m d = true).
+  { unfold fields_ok in F. unfold CalFunc.date_to_days_safe, rdiv. cbv zeta.
+    destruct (m <=? 2) eqn:E; repeat rewrite andb_true_iff; rewrite ?in_s64, ?in_u32; repeat split; lia. }
+  rewrite S. cbv zeta. repeat split; intros ->; reflexivity.
+Qed.
+
+(* the witnesses of the repaired finding F-C20-8 on the new model *)
+Theorem date_witnesses_l :
+  eval_dfn DDateAdd [DDate 2024 1 1; DNum i64_max] = OVal VNull /\
+  eval_dfn DFromDays [DNum i64_max] = OVal VNull /\ eval_dfn DFromDays [DNum 92233720368547758] = OVal VNull /\
+  eval_dfn DDateSub [DDate 2024 1 1; DNum 92233720368547758] = OVal VNull /\
+  eval_dfn DFromDays [DNum 0] = OVal VNull /\ eval_dfn DFromDays [DNum 3652060] = OVal VNull /\
+  eval_dfn DFromDays [DNum 3652059] = OVal (VText (fmt_date 9999 12 31)) /\ eval_dfn DFromDays [DNum 1] = OVal (VText (fmt_date 1 1 1)).
 Proof. vm_compute. repeat split. Qed.
 
 (* the formatting is the usual one *)
